@@ -178,6 +178,32 @@ def buildReaction (parent : Sys) (d : ReactionD) : Res PyReaction :=
 
 def optNum (x : Option Num) : Num := x.getD (.bare 1)
 
+/-- `rdgraphspacenode_from_dict` + `RDGraphSpaceNode(...)` for node number `p.2` under the space's system `u` -/
+def buildNode (u : Sys) (edges : List Rat) (p : NodeD × Nat) : Res PyNode :=
+  match resolveUnits p.1.units false u with
+  | .error e => .error e
+  | .ok un =>
+    match processUnitVar (optNum p.1.vol) un Dim.volume with
+    | .error e => .error e
+    | .ok v => .ok ({ vol := v, edge := edges.getD p.2 0, env := p.1.env.getD 0 } : PyNode)
+
+/-- `rdgraphspaceedge_from_dict` + `RDGraphSpaceEdge(...)` under the space's system `u` -/
+def buildEdge (u : Sys) (ed : EdgeD) : Res PyEdge :=
+  match resolveUnits ed.units false u with
+  | .error e => .error e
+  | .ok ue =>
+    match processUnitVar (optNum ed.sfc) ue Dim.surface, processUnitVar (optNum ed.dst) ue Dim.length with
+    | .error e, _ => .error e
+    | _, .error e => .error e
+    | .ok s, .ok l => .ok ({ i := ed.i, j := ed.j, sfc := s, dst := l } : PyEdge)
+
+/-- the `cell_env` argument of `RDGridSpace` -/
+def buildCellEnv (g : GridShape) (env : CellEnvD) : Res (List Nat) :=
+  match env with
+  | .none => .ok (List.replicate g.size 0)
+  | .all e => .ok (List.replicate g.size e)
+  | .map l => if l.length = g.size then .ok l else .error .badValue
+
 /-- `rdspace_from_dict`: `edges` are the SI cell edges (cube roots of the volumes), an input -/
 def buildSpace (parent : Sys) (edges : List Rat) (d : SpaceD) : Res PySpace :=
   match d with
@@ -187,10 +213,7 @@ def buildSpace (parent : Sys) (edges : List Rat) (d : SpaceD) : Res PySpace :=
     | .ok u =>
       if !g.valid then .error .badValue
       else
-        match (match env with
-            | .none => Except.ok (List.replicate g.size 0)
-            | .all e => .ok (List.replicate g.size e)
-            | .map l => if l.length = g.size then .ok l else .error Err.badValue : Res (List Nat)) with
+        match buildCellEnv g env with
         | .error e => .error e
         | .ok envl =>
           match processUnitVar (optNum vol) u Dim.volume with
@@ -200,23 +223,10 @@ def buildSpace (parent : Sys) (edges : List Rat) (d : SpaceD) : Res PySpace :=
     match resolveUnits units false parent with
     | .error e => .error e
     | .ok u =>
-      match mapRes (fun (p : NodeD × Nat) =>
-          match resolveUnits p.1.units false u with
-          | .error e => .error e
-          | .ok un =>
-            match processUnitVar (optNum p.1.vol) un Dim.volume with
-            | .error e => .error e
-            | .ok v => .ok ({ vol := v, edge := edges.getD p.2 0, env := p.1.env.getD 0 } : PyNode)) (nodes.zip (List.range nodes.length)) with
+      match mapRes (buildNode u edges) (nodes.zip (List.range nodes.length)) with
       | .error e => .error e
       | .ok ns =>
-        match mapRes (fun (ed : EdgeD) =>
-            match resolveUnits ed.units false u with
-            | .error e => .error e
-            | .ok ue =>
-              match processUnitVar (optNum ed.sfc) ue Dim.surface, processUnitVar (optNum ed.dst) ue Dim.length with
-              | .error e, _ => .error e
-              | _, .error e => .error e
-              | .ok s, .ok l => .ok ({ i := ed.i, j := ed.j, sfc := s, dst := l } : PyEdge)) es with
+        match mapRes (buildEdge u) es with
         | .error e => .error e
         | .ok el => .ok (.graph ns el)
 
@@ -237,40 +247,55 @@ def chemIn (c : ChemD) (env : String) : Int :=
 structure Built where
   sys : PySys
   state : List Rat
-  sysUnits : Sys
-  netUnits : Sys
+
+/-- `rdnetwork_from_dict`: the network's own units system, then its species and reactions under it -/
+def buildNet (us : Sys) (d : NetD) : Res (List BuiltSpecies × List PyReaction) :=
+  match resolveUnits d.units false us with
+  | .error e => .error e
+  | .ok un =>
+    match mapRes (buildSpecies un) d.species, mapRes (buildReaction un) d.reactions with
+    | .error e, _ => .error e
+    | _, .error e => .error e
+    | .ok sp, .ok rs => .ok (sp, rs)
+
+/-- the explicit "state" list of a description (bare numbers in the system's units system), or the default state -/
+def stateOfDesc (us : Sys) (st : Option (List Rat)) (dflt : List Rat) : List Rat :=
+  match st with
+  | none => dflt
+  | some l => l.map fun v => (Q.ofU us Dim.quantity v).si
+
+/-- the system assembled from its built parts: environment check of the `RDSystem.space` setter, default state
+`density(env_i)·V_i`, default chemostat map -/
+def assemble (us : Sys) (d : SystemD) (sp : List BuiltSpecies) (rs : List PyReaction) (space : PySpace) : Res Built :=
+  let envs := d.net.envs.getD [""]
+  let n := space.size
+  -- RDSystem.space setter: every cell environment index must be below the number of environments
+  if (List.range n).any (fun i => space.envOf i ≥ envs.length) then .error .badValue
+  else
+    let ns := sp.length
+    let envLabel (i : Nat) : String := envs.getD (space.envOf i) ""
+    let dfltState : List Rat := (List.range ns).flatMap fun s => (List.range n).map fun i =>
+      ((getValueInEnv (sp.getD s ⟨.single default, .single default, .none⟩).density (envLabel i) ⟨0, Dim.density⟩).mul (space.volOf i)).si
+    let dfltChem : List Int := (List.range ns).flatMap fun s => (List.range n).map fun i =>
+      chemIn (sp.getD s ⟨.single default, .single default, .none⟩).chstt (envLabel i)
+    .ok { sys := { nSpecies := ns, dcoef := sp.map (·.D), reactions := rs, envs := envs, space := space,
+                   chem := d.chem.getD dfltChem }
+          state := stateOfDesc us d.state dfltState }
 
 /-- `rdsystem_from_dict(d, parent)` + `RDSystem(...)` -/
 def buildSystem (parent : Sys) (edges : List Rat) (d : SystemD) : Res Built :=
   match resolveUnits d.units false parent with
   | .error e => .error e
   | .ok us =>
-    match resolveUnits d.net.units false us with
+    let envs := d.net.envs.getD [""]
+    match buildNet us d.net with
     | .error e => .error e
-    | .ok un =>
-      let envs := d.net.envs.getD [""]
+    | .ok (sp, rs) =>
+      -- RDNetwork(...): the environment list must be non-empty and must not contain "default"
       if envs.isEmpty ∨ envs.contains "default" then .error .badValue
       else
-        match mapRes (buildSpecies un) d.net.species, mapRes (buildReaction un) d.net.reactions, buildSpace us edges d.space with
-        | .error e, _, _ => .error e
-        | _, .error e, _ => .error e
-        | _, _, .error e => .error e
-        | .ok sp, .ok rs, .ok space =>
-          let n := space.size
-          -- RDSystem.space setter: every cell environment index must be below the number of environments
-          if (List.range n).any (fun i => space.envOf i ≥ envs.length) then .error .badValue
-          else
-            let ns := sp.length
-            let envLabel (i : Nat) : String := envs.getD (space.envOf i) ""
-            let dfltState : List Rat := (List.range ns).flatMap fun s => (List.range n).map fun i =>
-              ((getValueInEnv (sp.getD s ⟨.single default, .single default, .none⟩).density (envLabel i) ⟨0, Dim.density⟩).mul (space.volOf i)).si
-            let dfltChem : List Int := (List.range ns).flatMap fun s => (List.range n).map fun i =>
-              chemIn (sp.getD s ⟨.single default, .single default, .none⟩).chstt (envLabel i)
-            let state : List Rat := match d.state with
-              | none => dfltState
-              | some l => l.map fun v => (Q.ofU us Dim.quantity v).si
-            .ok { sys := { nSpecies := ns, dcoef := sp.map (·.D), reactions := rs, envs := envs, space := space,
-                           chem := d.chem.getD dfltChem }
-                  state := state, sysUnits := us, netUnits := un }
+        match buildSpace us edges d.space with
+        | .error e => .error e
+        | .ok space => assemble us d sp rs space
 
 end Strengths
